@@ -1,0 +1,22 @@
+//go:build verif
+
+package storage
+
+// Round-trip harness for the govc verifier (/verif): real code, compiled only with the `verif`
+// build tag, never called by the program. It writes one record of the unconfirmed-transaction
+// file into an in-memory buffer with the real encoder and reads it back with the real decoder.
+
+import (
+	"bytes"
+
+	"github.com/tokenized/pkg/bitcoin"
+)
+
+func verifRoundTripUnconfirmed(tx *unconfirmedTx, txid *bitcoin.Hash32) (bitcoin.Hash32, *unconfirmedTx, *bytes.Buffer, error) {
+	buf := &bytes.Buffer{}
+	if err := tx.Write(buf, txid); err != nil {
+		return bitcoin.Hash32{}, nil, buf, err
+	}
+	id, tx2, err := readUnconfirmedTx(buf, 0)
+	return id, tx2, buf, err
+}
